@@ -689,6 +689,52 @@ def check_termlist(r, geo, dense, Href, Hc, mats, tol):
     return problems, far
 
 
+def zero_hamiltonian(case, r):
+    """Is the operator the add_* calls of a specification stand for exactly zero?  True / False / a text (undecided).
+    True needs: every term whose left-most operator lies in the first unit cell fits into the dense window, the dense sum of
+    all terms inside the window vanishes, and the implementation's containers (zeros removed) hold no term."""
+    if 'npz' not in r or 'onsite' not in r:
+        return 'undecided: containers not exported (%s)' % (r.get('export_basic_error') or '')[-200:]
+    EXP = ('add_exponentially_decaying_coupling', 'add_exponentially_decaying_centered_terms')
+    try:
+        npz = np.load(r['npz'])
+        ops = O.load_ops(npz, len(r['needs_JW']))
+        L, N, finite = r['L'], r['N'], r['finite']
+        geo = O.Geometry(r)
+        reach = N - 1
+        # (exponentially decaying calls: a non-zero strength gives a non-zero term inside every window of two unit cells, or, on a
+        # finite system, no term at all; they do not enlarge the window)
+        noexp = dict(case['spec'], calls=[c_ for c_ in case['spec']['calls'] if c_['fn'] not in EXP])
+        for kind, st, term, hc, strings in O.user_level_terms(noexp, geo):
+            ks = [k for _, k in term]
+            if st != 0 and 0 <= min(ks) < L:
+                reach = max(reach, max(ks))
+        if float(np.prod([float(r['dims'][k % L]) for k in range(reach + 1)])) > 1100:
+            return 'undecided: a window of %d sites is too large for the dense oracle' % (reach + 1)
+        dense = O.Dense(O.Geometry(r, lo=0, hi=reach), ops, r['needs_JW'])
+        Href, _, nterms = O.expected_from_spec(case['spec'], dense)
+        if case['spec'].get('explicit_plus_hc'):
+            Href = 0.5 * (Href + Href.conj().T)
+    except Exception as e:
+        return 'undecided: %r' % (e,)
+    finally:
+        try:
+            os.unlink(r['npz'])
+        except OSError:
+            pass
+    if Href.size and float(np.max(np.abs(Href))) > 1e-13:
+        return False
+    ex = r.get('exp') or {}
+
+    def nz(t):
+        return complex(*t['strength']) != 0
+    exp_terms = any(nz(t) and (not finite or any(j > i for i in t['subsites_start'] for j in t['subsites'])) for t in ex.get('exp', []))
+    cen_terms = any(nz(t) and any(j != t['i'] for j in t['subsites']) for t in ex.get('centered', []))
+    if r['onsite'] or r.get('coupling') or r.get('multi') or exp_terms or cen_terms:
+        return False
+    return True
+
+
 def check_case(ctx, case, r, fam_store):
     """oracle for one case; returns (info for the Coq stream or None)"""
     is_spec = case['kind'] == 'spec'
@@ -707,17 +753,18 @@ def check_case(ctx, case, r, fam_store):
             if (case['spec'].get('explicit_plus_hc') and not c.get('plus_hc') and c['strength'].get('dtype') == 'int'
                     and c['fn'] == 'add_onsite'):
                 mk = 'C10:add_onsite:int-strength-with-explicit_plus_hc'
-        if 'error_call' not in r:
-            # a Hamiltonian without any term cannot be built (no path IdL -> IdR): trivial case
-            try:
-                info0 = {'Ls': case['spec']['lattice']['Ls'], 'order': [[0] * (len(case['spec']['lattice']['Ls']) + 1)], 'bc': [True], 'finite': True, 'N': 1}
-                empty = "can't determine all charges" in r['error']
-            except Exception:
-                empty = False
-            if empty and not any(True for c_ in case['spec']['calls'] if c_['fn'] not in ('add_exponentially_decaying_coupling',
-                                                                                       'add_exponentially_decaying_centered_terms')):
+        if 'error_call' not in r and "can't determine" in r['error']:
+            # The zero operator has no MPO graph (no path IdL -> IdR); MPOGraph.build_MPO refuses it with this ValueError.
+            # A specification is outside the property when its terms sum to exactly zero (all strengths cancel, or an
+            # exponentially decaying coupling restricted to a single site): decided by the independent dense semantics of the
+            # calls AND by the implementation's own (zero-stripped) containers being empty.
+            zero = zero_hamiltonian(case, r)
+            if zero is True:
                 ctx.count('models', case['spec'], nontrivial=False)
+                ctx.cov['zero_hamiltonian_specs'] = ctx.cov.get('zero_hamiltonian_specs', 0) + 1
                 return None
+            if zero is not False:
+                r = dict(r, error=r['error'] + ' [' + str(zero) + ']')
         ctx.fail('oracle', 'valid model specification raised: ' + r['error'], label, match_key=mk)
         ctx.count('models', case['spec'], nontrivial=True)
         return None
@@ -767,6 +814,16 @@ def check_case(ctx, case, r, fam_store):
     N = r['N']
     # H_bond of an infinite system on a window: the on-site terms of the two edge sites count half
     edge_corr = 0
+    if not finite and not is_spec and 'onsite' not in r:
+        # a predefined model without term containers (AKLTChain: defined by its bond operators, MPO from calc_H_MPO_from_bond):
+        # the reference operator is the contraction of the model's own MPO, and its on-site part on the two edge sites is the
+        # on-site block W[IdL, IdR] of that MPO (for AKLT: the constant part of the bond operators, which calc_H_MPO_from_bond
+        # distributes over the sites as multiples of the identity)
+        for k in (geo.lo, geo.hi):
+            nm_ = 'mpo_onsite/%d' % k
+            if nm_ in mats:
+                onsite[k] = dense.kron_list([mats[nm_] if q == k else np.eye(dense.dims[q - geo.lo]) for q in range(geo.lo, geo.hi + 1)])
+    mats = {k_: v_ for k_, v_ in mats.items() if not k_.startswith('mpo_onsite/')}
     if not finite:
         for k in (geo.lo, geo.hi):
             if k in onsite:
@@ -955,7 +1012,14 @@ def check_case(ctx, case, r, fam_store):
         if nn and (r.get('coupling') or r.get('multi') or r.get('onsite')):
             problems.append(('C10:calc_H_bond:raises', 'calc_H_bond raised (%s) although all terms are on-site or nearest-neighbour' % r['no_bond']))
     # every representation must have been produced
+    # consequences of MPO.sort_legcharges (finding F112): a model built with sort_mpo_legs=True on an infinite lattice with a
+    # non-trivial charge shift holds an MPO whose first wL and last wR leg are incompatible (the runner verified: the MPO before
+    # sorting passes test_sanity, the sorted one does not); every contraction across the unit-cell boundary then raises
+    sorted_model = bool((case.get('spec') or case.get('params') or {}).get('sort_mpo_legs'))
+    broken_by_sort = (sorted_model and not finite and not r.get('trivial_shift', True) and r.get('sort_legs_breaks_sanity') is True)
     for nm, e in r['errors'].items():
+        if nm.startswith('mpo_onsite/'):
+            continue
         key = 'C10:raises:' + nm
         if nm == 'H_mpo_from_bond' and ('chinfo' in e or 'SVD found no singular values' in e) and O.is_onsite_only(Href, r['dims'], 1e-9 * scale):
             key = 'C10:calc_H_MPO_from_bond:no-two-site-coupling'
@@ -970,6 +1034,8 @@ def check_case(ctx, case, r, fam_store):
             key = 'C10:MPO.dagger:infinite-nontrivial-charge-shift'
         if nm in ('H_bond_from_plain_MPOModel', 'H_bond_from_mpo') and "no attribute 'explicit_plus_hc'" in e:
             key = 'C10:MPOModel.calc_H_bond_from_MPO:explicit_plus_hc-attribute'
+        if broken_by_sort and 'incompatible LegCharge' in e:
+            key = 'C10:MPO.sort_legcharges:infinite-nontrivial-charge-shift'
         problems.append((key, 'representation %s raised %s' % (nm, e)))
     # family invariance (explicit_plus_hc, manual h.c., conserve options, sort_mpo_legs): same operator
     fkey = case['family']
@@ -1521,6 +1587,14 @@ def main(ctx):
         'C10 termlist: a TermList stores no operator strings (documented); the sites between two operators of a term are read as JW when '
         'an odd number of operators to their left anticommutes with the local JW, as identity otherwise',
         'local operator matrices and Jordan-Wigner flags are taken from tenpy.networks.site (property C12)',
+        'C10 excluded: model specifications whose terms sum to exactly the zero operator (strengths of several calls cancel, or an '
+        'exponentially decaying coupling on a single site): the zero operator has no MPO graph and MPOGraph.build_MPO refuses it with '
+        'ValueError "can\'t determine ... charges"; decided per case by the dense semantics of the calls (all terms of the first unit '
+        'cell inside the window, |H| <= 1e-13) together with the emptiness of the implementation\'s zero-stripped containers; any other '
+        'raise of a specification is reported',
+        'C10 predefined models without term containers on infinite lattices (AKLTChain): the reference is the contraction of the model\'s '
+        'own MPO; the bond form on a window counts the on-site block W[IdL, IdR] of the two edge sites half (as for coupling models), so '
+        'H_bond is compared with the MPO window minus half of those two blocks',
     ]
     return ctx.finish(RULE, 'theorems of coq/Props/C10.v about the automaton model; model tied to MPOGraph.from_terms by rebuilding the '
                       'implementation\'s graphs inside Coq and by denoting the implementation\'s graphs with the verified function; all dense '
